@@ -44,6 +44,8 @@ TIE_VIEWS = TIE("GzViews", "tie_obtain_vertices", "tie_accessor_to_latter_map", 
                 "tie_latter_map_to_accessor_plain", "tie_latter_map_to_accessor_trim", "tie_obtain_leaf_vertices_acc",
                 "tie_obtain_leaf_vertices_map", "tie_obtain_leaf_vertices_bad")
 TIE_BUILD = TIE("SwFind", "tie_find_vertices") + TIE("SwValid", "tie_connect_valid_graph", "tie_connect_valid_graph_none")
+TIE_CCG = TIE("SwCoding", "tie_connect_coding_graph")
+TIE_SCORE = TIE("GzScore", "tie_calculate_intersection_score")
 TIE_REP = TIE("SwRepair", "tie_repair_dna") + TIE("GzPath", "tie_path_matching")
 TIE_GZ = TIE("GzArith", "tie_obtain_latters", "tie_obtain_formers", "tie_get_complete_accessor")
 TIE_OPERATION = (TIE("OpAdd", "tie_calculus_addition") + TIE("OpSub", "tie_calculus_subtraction") +
@@ -60,15 +62,15 @@ PROPS = {
                      "out-degrees) x start x permutation table x message x mode x check length; a case is one encode "
                      "line; non-trivial = message value > 0 and the walk visits a branching vertex; distinct = hash "
                      "of the operation line"),
-    "C02": dict(level="proof", theorems=T("C02", "C02_windows", "C02_generated_subgraph", "C02_whole", "C02_ctor_partial", "C02_ctor_counterexample") + T("EndToEnd", "E2E_generated_subgraph"), gens=["C02"],
+    "C02": dict(level="proof", theorems=T("C02", "C02_windows", "C02_generated_subgraph", "C02_whole", "C02_ctor_partial", "C02_ctor_counterexample") + T("EndToEnd", "E2E_generated_subgraph") + TIE_BUILD + TIE_CCG + TIE_SW[1:2], tie=[("spiderweb", ["find_vertices", "connect_valid_graph", "connect_coding_graph", "encode"])], gens=["C02", "GENSW"],
                 rule="filter grid (run x GC range x motifs, and user-defined table predicates) x k x threshold x start x "
                      "message x table x mode, plus the constructor grid and the threshold grid; non-trivial = a "
                      "non-empty strand was emitted / configuration accepted"),
-    "C03": dict(level="proof", theorems=T("C03", "C03_trimLoop", "C03_gfp", "C03_t1", "C03_holds", "C03_mono", "C03_latter_map", "C03_goodFrom", "C03_pure") + T("C03b", "C03_remove_useless") + TIE_VIEWS[2:5], tie=[("graphized", ["remove_useless", "latter_map_to_accessor", "obtain_latters", "obtain_formers"])], gens=["C03", "GENGZ"],
+    "C03": dict(level="proof", theorems=T("C03", "C03_trimLoop", "C03_gfp", "C03_t1", "C03_holds", "C03_mono", "C03_latter_map", "C03_goodFrom", "C03_pure") + T("C03b", "C03_remove_useless") + TIE_VIEWS[2:5] + TIE_CCG, tie=[("spiderweb", ["connect_coding_graph"]), ("graphized", ["remove_useless", "latter_map_to_accessor", "obtain_latters", "obtain_formers", "obtain_vertices"])], gens=["C03", "GENGZ", "GENSW"],
                 rule="vertex masks (density classes, structured cycles; thorough: a seeded quarter of all 65 536 order-2 "
                      "masks) x threshold 1..4 x dtype; non-trivial = mask neither empty nor full and at least one "
                      "vertex removed"),
-    "C04": dict(level="proof", theorems=T("C04", "C04_terminates_normal", "C04_terminates_fast", "C04_tight_normal", "C04_length_branching", "C04_length_complete", "C04_tight_fast") + T("C03", "C03_goodFrom"), gens=["C04"],
+    "C04": dict(level="proof", theorems=T("C04", "C04_terminates_normal", "C04_terminates_fast", "C04_tight_normal", "C04_length_branching", "C04_length_complete", "C04_tight_fast") + T("C03", "C03_goodFrom") + TIE_CCG + TIE_SW[1:2], tie=[("spiderweb", ["connect_coding_graph", "encode"]), "operation"], gens=["C04", "GENSW"],
                 rule="graphs returned by the real connect_coding_graph x retained starts x messages x modes, accessor "
                      "passed as a read-counting proxy; non-trivial = value > 0 and a branching vertex visited"),
     "C05": dict(level="proof", theorems=T("C05", "C05_encode_meets_spec", "C05_spec_unique", "C05_decode_value", "C05_fast_meets_spec", "C05_fast_decode_value") + T("C18", "C18_digit_is_rank", "C18_bijection") + TIE_SW[1:] + SWCOR["C05"], tie=[("spiderweb", ["encode", "decode"]), "operation"], gens=["C05", "GENSW"],
@@ -138,7 +140,7 @@ PROPS = {
                             "is a theorem about the model since the continuation session: Model/Shuffle.lean models MT19937 "
                             "seeding and NumPy's legacy shuffle, the table is a pure function of (k, seed) there "
                             "(C18_seeded_deterministic) and is compared entry by entry with NumPy's output on every run"]),
-    "C19": dict(level="proof", theorems=T("C19", "C19_scores", "C19_step", "C19_history"), gens=["C19"],
+    "C19": dict(level="proof", theorems=T("C19", "C19_scores", "C19_step", "C19_history") + TIE_SCORE + TIE_VIEWS[1:2], tie=[("graphized", ["calculate_intersection_score", "accessor_to_latter_map", "obtain_leaf_vertices", "obtain_vertices"])], gens=["C19", "GENGZ"],
                 rule="generated graphs x flags x removal sequences until the first raise; non-trivial = history of "
                      ">= 2 returning calls"),
     "C20": dict(level="translation_validation", theorems=T("C20", "C20_stateless", "C20_compositional", "C20_idempotent_observation"), gens=["C20"],
